@@ -332,6 +332,10 @@ class History:
         if h is None:
             return
         k, v = str(op.get("k", "x")), op.get("v")
+        jid0 = oracle.job_id(h["sp"])
+        if v is None and isinstance(self.model[h["p"]].get(jid0, {}).get("doc", {}).get(k), (dict, list)):
+            self.cl.add("excluded_doc_none_over_collection")  # other handles would not see it (F-DOCNONE, C05)
+            return
         try:
             self._doc(h)[k] = json.loads(json.dumps(v))
         except Exception as e:
@@ -357,9 +361,24 @@ class History:
             self.mm("doc_del", f"del doc[{k!r}] {'raised KeyError' if raised else 'succeeded'} but model doc is {mj['doc']!r}")
         mj["doc"].pop(k, None)
 
+    def _doc_quirk(self, h, requested):
+        """Known finding F-DOCNONE (dependency): update/reset keep an old nested collection when the new
+        value is None. Such ops are excluded by construction here (C05 owns the finding) and counted."""
+        jid = oracle.job_id(h["sp"])
+        old = self.model[h["p"]].get(jid, {}).get("doc", {})
+        if dep_merge(json.loads(json.dumps(old)), json.loads(json.dumps(requested))) != requested:
+            self.cl.add("excluded_doc_none_over_collection")
+            return True
+        return False
+
     def op_doc_update(self, op):
         h = self.usable(op)
         if h is None or not isinstance(op.get("m"), dict):
+            return
+        jid0 = oracle.job_id(h["sp"])
+        merged = dict(self.model[h["p"]].get(jid0, {}).get("doc", {}))
+        merged.update(op["m"])
+        if self._doc_quirk(h, merged):
             return
         try:
             self._doc(h).update(json.loads(json.dumps(op["m"])))
@@ -382,6 +401,8 @@ class History:
     def op_doc_reset(self, op):
         h = self.usable(op)
         if h is None or not isinstance(op.get("m"), dict):
+            return
+        if self._doc_quirk(h, op["m"]):
             return
         try:
             h["job"].doc = json.loads(json.dumps(op["m"]))
